@@ -725,6 +725,14 @@ def execute(case, report):
                 report(v.key, v.message)
                 break
             root, recs, idx_ok = _observe(chart, cur, baseline, idx_ok, "replace", report, requested_type=ct)
+    if case["mode"] == "gen" and case.get("date1904") and case["replacements"]:
+        # the chart as PowerPoint for Mac stores it: dates count from 1904 (c:date1904 is the first child of
+        # c:chartSpace); what replace_data writes afterwards must use that date system
+        from pptx.oxml import parse_xml
+        cs = chart._chartSpace
+        if cs.find(C + "date1904") is None:
+            cs.insert(0, parse_xml('<c:date1904 xmlns:c="%s" val="1"/>' % C[1:-1]))
+        root = etree.fromstring(chart.part.blob)
     for desc in case["replacements"]:
         if case.get("decorate"):
             _decorate(chart, case["decorate"])
@@ -857,6 +865,7 @@ def _gen_strategy(type_name):
         "replacements": st.lists(cdm.chart_data(kind, min_series=1), min_size=0, max_size=4),
         "decorate": st.sampled_from([0, 0, 1, 3, 5, 9, 15]),
         "grow": st.one_of(st.just([]), st.just([]), st.lists(st.sampled_from([1, 2, 3]), min_size=1, max_size=2)),
+        "date1904": st.sampled_from([False, False, True]),
     })
 
 
